@@ -218,3 +218,20 @@ def bigdiv_cases(p=None):
                     prog = [["input", 0, "priv", 0], (["const", 1, ["int", d]] if kb == "int" else ["input", 1, "priv", 1]), ["bin", 2, op, 0, 1]]
                     out.append(dict(cfg=dict(p=p, n=n, res=2, ign=0), prog=prog, ins=[big * d, d, 1, 1], matrix="bigdiv:%s:%s" % (op, kb)))
     return out
+
+def midprove_cases(p):
+    """prove() called in the middle of a session and again at the end (notebook / REPL use): new public values, with and without
+    new constraints, between the two calls; the artefacts of the last call describe the whole trace"""
+    out = []
+    base = [["input", 0, "priv", 1], ["bin", 1, "mul", 0, 0]]
+    tails = [[["input", 2, "pub", 2]],                                                             # a new public value, no new constraint
+             [["input", 2, "pub", 2], ["bin", 3, "mul", 0, 2], ["meth", 4, "val", None, 3, []]],     # new public values and constraints
+             [["meth", 2, "val", None, 1, []]],
+             [["input", 2, "priv", 2], ["bin", 3, "mul", 2, 1]]]
+    for t in tails:
+        out.append(dict(cfg=dict(p=p, n=8, res=2, ign=0), prog=base + t, ins=[1, 3, 5, 1], prove_at=2))
+    # coefficients far outside (-p, 2p): products of field inverses, constants wider than the field
+    out.append(dict(cfg=dict(p=p, n=8, res=2, ign=0), prog=[["input", 0, "priv", 1], ["input", 1, "priv", 2], ["const", 2, ["int", 3]], ["bin", 3, "truediv", 0, 2], ["const", 4, ["int", 5]],
+                                                             ["bin", 5, "truediv", 3, 4], ["bin", 6, "mul", 5, 1], ["const", 7, ["int", -5]], ["bin", 8, "mul", 3, 7], ["bin", 9, "mul", 8, 1],
+                                                             ["const", 10, ["int", 3 * 2 ** 300 + 1]], ["bin", 11, "mul", 0, 10], ["bin", 12, "mul", 11, 1]], ins=[1, 15, 7, 1]))
+    return out
